@@ -69,9 +69,9 @@ theorem handoff_inv (es : List (Option Nat × Nat)) :
     obtain ⟨stv, valid, v⟩ := h
     cases fe with
     | some b =>
-      simp [keepsUp] at hk
+      simp only [keepsUp, Bool.and_eq_true, Bool.or_eq_true, beq_iff_eq, bne_iff_ne, ne_eq] at hk
       obtain ⟨hc2, hk'⟩ := hk
-      rcases hr with ⟨hc, h1, h2, hp⟩ | ⟨hc, _⟩ | ⟨hc, _⟩
+      rcases hr with ⟨hc, h1, h2, hp⟩ | ⟨hc, _⟩ | ⟨hc, h1, h2, hp⟩
       · simp only at h1 h2; subst h1; subst h2; subst hp
         by_cases hr0 : r = 0
         · subst hr0
@@ -80,7 +80,14 @@ theorem handoff_inv (es : List (Option Nat × Nat)) :
         · have := ih 1 (hsStep ⟨0, 0, v⟩ (some b) r) [b] (by right; right; simp [hsStep, hr0]) (by simpa [hr0] using hk')
           simp [hsDelivered, optCons, this]
       · omega
-      · omega
+      · -- the previous byte is taken in exactly the cycle in which the next frame completes
+        simp only at h1 h2 hp; subst h1; subst h2; subst hp
+        have hr0 : ¬ (r = 0) := by
+          rcases hc2 with h | ⟨_, h⟩
+          · omega
+          · exact h
+        have := ih 1 (hsStep ⟨2, 1, v⟩ (some b) r) [b] (by right; right; simp [hsStep, hr0]) (by simpa [hr0] using hk')
+        simp [hsDelivered, optCons, hr0, this]
     | none =>
       simp only [keepsUp] at hk
       rcases hr with ⟨hc, h1, h2, hp⟩ | ⟨hc, h1, h2, hp⟩ | ⟨hc, h1, h2, hp⟩
